@@ -27,9 +27,9 @@ Proof. exact rtd_conforms. Qed.
 Print Assumptions C01_domain_conforms.
 
 (* Library-own leaf logic, proved (not assumed): the loader's replace('Z','+00:00',1) undoes the
-   dumper's replace('+00:00','Z',1) on every text without a 'Z' (isoformat() output). *)
+   dumper's "trailing +00:00 -> Z" on every text without a 'Z' (isoformat() output). *)
 Theorem C01_z_inverse :
-  forall s, no_z s = true -> replace_first z_text utc_off (replace_first utc_off z_suffix s) = s.
+  forall s, no_z s = true -> replace_first z_text utc_off (iso_z s) = s.
 Proof. exact z_roundtrip. Qed.
 Print Assumptions C01_z_inverse.
 
